@@ -216,6 +216,12 @@ func checkC10Pay(r *run, c *H264PayCase) (CaseInfo, error) {
 			if err != nil {
 				return ci, failf("%s: H264Packet rejects the payloader's output: %v", what, err)
 			}
+			if !bytes.Equal(arg, p) {
+				return ci, failf("%s: H264Packet.Unmarshal modified the payload it was given: now %s", what, hx(arg))
+			}
+			if dep.IsPartitionHead(arg) != head {
+				return ci, failf("%s: IsPartitionHead=%v after the payload was decoded, want %v", what, !head, head)
+			}
 			if c.SharedRx {
 				out = clone(out) // judged as returned; the retained-output check below is about H264Packet's own buffers
 			}
@@ -339,9 +345,13 @@ func checkC10Dec(r *run, c *H264DecCase) (CaseInfo, error) {
 		if err != nil {
 			return ci, failf("harness bug: reference reassembler rejects reference stream: %v", err)
 		}
-		out, err := dep.Unmarshal(clone(p))
+		arg := clone(p)
+		out, err := dep.Unmarshal(arg)
 		if err != nil {
 			return ci, failf("payload %d/%d %s of a well-formed RFC 6184 stream rejected: %v", pi, len(stream), hx(p), err)
+		}
+		if !bytes.Equal(arg, p) {
+			return ci, failf("payload %d/%d %s: H264Packet.Unmarshal modified the payload it was given: now %s", pi, len(stream), hx(p), hx(arg))
 		}
 		if exp := h264rtp.Frame(units, c.AVC); !bytes.Equal(out, exp) {
 			return ci, failf("payload %d/%d %s: H264Packet returned %s, want %s", pi, len(stream), hx(p), hx(out), hx(exp))
@@ -506,7 +516,7 @@ func genH264DecCase(t *rapid.T) *H264DecCase {
 	return c
 }
 
-const ruleC10 = "payloader: 1-4 Payload calls on one H264Payloader, each an Annex-B buffer (3-/4-byte start codes, optional leading zero byte) or one bare unit; NAL types 1-23 weighted to 1,5,6,7,8,9,12, NRI 0-3, sizes 2 bytes to several MTUs biased to MTU+-2 and 1+k*(MTU-2)+-2 (one case in 60 holds a unit of 65534-131073 bytes, parameter sets included), bodies free of start-code emulation with a non-zero last byte; SPS/PPS only as adjacent pairs (possibly split across calls); MTU 3-1500 biased to 3-10; STAP-A on/off; AVC on/off. Oracle: independent RFC 6184 parser/reassembler on the output (single | STAP-A | FU-A shapes, S/E placement, >=2 fragments, R=0, no empty fragment, <= MTU, pair as one STAP-A or individually, IsPartitionHead on first payloads only, byte-exact units in order minus AUD/filler) and H264Packet output = reference depacketizer output per payload (payloads delivered as private copies or, half of the cases, through one receive buffer that is wiped before each delivery), every output kept and compared again after the whole stream was decoded. decoder: streams from the independent encoder (single, STAP-A of 1-5 units, FU-A with arbitrary fragment sizes incl. 1-byte and empty ones, the start fragment included). Non-trivial = stream with an FU-A train or a STAP-A; distinct = FNV-64 of the JSON case"
+const ruleC10 = "payloader: 1-4 Payload calls on one H264Payloader, each an Annex-B buffer (3-/4-byte start codes, optional leading zero byte) or one bare unit; NAL types 1-23 weighted to 1,5,6,7,8,9,12, NRI 0-3, sizes 2 bytes to several MTUs biased to MTU+-2 and 1+k*(MTU-2)+-2 (one case in 60 holds a unit of 65534-131073 bytes, parameter sets included), bodies free of start-code emulation with a non-zero last byte; SPS/PPS only as adjacent pairs (possibly split across calls); MTU 3-1500 biased to 3-10; STAP-A on/off; AVC on/off. Oracle: independent RFC 6184 parser/reassembler on the output (single | STAP-A | FU-A shapes, S/E placement, >=2 fragments, R=0, no empty fragment, <= MTU, pair as one STAP-A or individually, IsPartitionHead on first payloads only, byte-exact units in order minus AUD/filler) and H264Packet output = reference depacketizer output per payload (payloads delivered as private copies or, half of the cases, through one receive buffer that is wiped before each delivery), the payload left unmodified, every output kept and compared again after the whole stream was decoded. decoder: streams from the independent encoder (single, STAP-A of 1-5 units, FU-A with arbitrary fragment sizes incl. 1-byte and empty ones, the start fragment included). Non-trivial = stream with an FU-A train or a STAP-A; distinct = FNV-64 of the JSON case"
 
 func TestC10(t *testing.T) {
 	r := begin(t, "C10", "exploration", ruleC10)
